@@ -80,7 +80,7 @@ func TestC03_SelfCertifying(t *testing.T) {
 
 		// (b) single known-field modification
 		m := b.clone()
-		mod := rapid.IntRange(0, 12).Draw(t, "modification")
+		mod := rapid.IntRange(0, 13).Draw(t, "modification")
 		label := ""
 		deltaChange := false
 		switch mod {
@@ -128,6 +128,28 @@ func TestC03_SelfCertifying(t *testing.T) {
 				m.Delta["patches"] = ps[1:]
 			}
 			label, deltaChange = "delta-patch-removed", true
+		case 13:
+			// the recorded hash is that of a valid delta, the delta sent is a twin of it (what a parser that normalises while
+			// validating - filters nulls, drops duplicates, sorts, converts numbers - would make equal): another delta
+			good, twin, how := genDeltaTwin(t, p.Patches)
+			if good == nil {
+				m.Delta["updateCommitment"] = otherKey(t, upd).Commitment(alg)
+				label, deltaChange = "delta-update-commitment", true
+				break
+			}
+			ps := append([]interface{}{}, m.Delta["patches"].([]interface{})...)
+			at := rapid.IntRange(0, len(ps)).Draw(t, "twinAt")
+			withPatch := func(x map[string]interface{}) []interface{} {
+				return append(append(append([]interface{}{}, ps[:at]...), x), ps[at:]...)
+			}
+			m.Delta["patches"] = withPatch(good)
+			m.SuffixData["deltaHash"] = refHash(m.Delta, alg)
+			m.assemble()
+			if _, err := stack.Parser.Parse(ns, m.bytes()); err != nil {
+				t.Fatalf("C03 valid create (twin kind %s) refused: %v\n%s", how, err, m.bytes())
+			}
+			m.Delta["patches"] = withPatch(twin)
+			label, deltaChange = "delta-twin("+how+")", true
 		case 10:
 			// the recorded delta hash re-spelled so that it decodes to the same bytes: it is no longer the hash of the delta
 			h := m.SuffixData["deltaHash"].(string)
